@@ -8,6 +8,7 @@ import sys
 
 VERIF = os.path.dirname(os.path.dirname(os.path.abspath(__file__)))
 src_root = sys.argv[1] if len(sys.argv) > 1 else "/tmp/wt-out"
+prefix = sys.argv[2] if len(sys.argv) > 2 else ""
 for prop in sorted(os.listdir(src_root)):
     sd = os.path.join(src_root, prop)
     if not os.path.isdir(sd):
@@ -16,7 +17,8 @@ for prop in sorted(os.listdir(src_root)):
         m = re.match(r"(m\d+)\.diff$", f)
         if not m:
             continue
-        name = m.group(1)
+        name = prefix + m.group(1)
+        base = m.group(1)
         diff = open(os.path.join(sd, f)).read()
         if not diff.strip():
             continue
@@ -25,7 +27,7 @@ for prop in sorted(os.listdir(src_root)):
             continue
         os.makedirs(dd, exist_ok=True)
         shutil.copy(os.path.join(sd, f), os.path.join(dd, "patch.diff"))
-        md = os.path.join(sd, name + ".md")
+        md = os.path.join(sd, base + ".md")
         title = ""
         if os.path.exists(md):
             shutil.copy(md, os.path.join(dd, "demonstration.md"))
